@@ -37,8 +37,8 @@ def apply_order(ctx, lines):
 CFG = dict(
     imports=["From Verif.C16 Require Import Model Spec.", "Open Scope N_scope."],
     checker="check_case",
-    n=dict(quick=48, thorough=6000),
-    shard=12,
+    n=dict(quick=24, thorough=4000),
+    shard=6,
     classify=classify,
     extra=apply_order,
     rule="histories of 2-5 rounds (0-3 AddOrReplaceIPSet/AddMembers/RemoveMembers/RemoveIPSet calls over 2-4 set ids, three "
